@@ -749,7 +749,11 @@ def shared_definition_shapes():
     return out
 
 
-PROBES_C17 = {'c1': 'bbb\nccc\n', 'c2': 'dd\n', 'c5': 'foo bar\tdescr one\nbaz\tdescr\n', 'c6': 'x y\n', 'c7': 'k1\tonly descr\n'}
+PROBES_C17 = {'c1': 'bbb\nccc\n', 'c2': 'dd\n', 'c5': 'foo bar\tdescr one\nbaz\tdescr\n', 'c6': 'x y\n', 'c7': 'k1\tonly descr\n',
+              # backslashes, glob characters, a tab right after a backslash, trailing blanks before the tab
+              'c8': 'a\\b\tdescr\n*x\nq\\\tr\nw \tv\n',
+              # candidates that look like options of a shell built-in
+              'c9': '-n\n-e\tdescr\n-x\n'}
 
 
 def family_c17(tier, seed):
@@ -777,7 +781,12 @@ def family_c17(tier, seed):
     out.append(gram.mk('cmd', S(L('a'), Ref('U'), Cmd(probe('c2')))))
     out.extend(gen_e2(seed + 17, 20 if tier == 'quick' else 200, allow_descr=False))
     # the repeated mixtures have many paths: one complete word in the quick tier, two in the thorough one
-    return [('commands at every syntactic position', out), ('repeated mixtures of commands and within-word items', loops, 1 if tier == 'quick' else 2)]
+    c8 = Cmd(probe('c8'))
+    c9 = Cmd(probe('c9'))
+    special = [gram.mk('cmd', S(c8, L('x'))), gram.mk('cmd', S(Sub(L('k='), c8), L('x'))), gram.mk('cmd', S(F(L('lit'), c8), Opt(c8))),
+               gram.mk('cmd', S(c9, L('x'))), gram.mk('cmd', S(Sub(L('k='), c9), L('x'))), gram.mk('cmd', S(F(L('lit'), c9), Opt(c9)))]
+    return [('commands at every syntactic position', out), ('repeated mixtures of commands and within-word items', loops, 1 if tier == 'quick' else 2),
+            ('command output with backslashes, glob characters and blanks', special, 2, {'concrete_vocab_cases': True})]
 
 
 def check_C17(tier, seed):
